@@ -78,7 +78,10 @@ def samples(thorough=False):
         for sub in subs:
             out.append("." + ds + sub)
     out += ["0", "7", "42", "+5", "-5", "007", "1/2", "-32/3", "+1/3", "10/4", "1.5", "-1.5", "+.5", ".5", "-.25", "1.", "1e3", "1e-3", "1.5e2", "-2.5e+1",
-            "+.5e1", "12e0"]
+            "+.5e1", "12e0",
+            # the ends of the exact integer range (fixed-width representation): every in-range literal is read, with either sign
+            "2147483647", "+2147483647", "-2147483647", "-2147483648", "-0", "+0", "000", "-2147483648/3", "2147483647/2", "1/4294967295",
+            "-1/2147483648"]
     seen, uniq = set(), []
     for t in out:
         if t not in seen:
